@@ -50,8 +50,9 @@ pub use replace::Replace;
 pub use utils::IdentifyDistinct;
 
 /// Verification hooks (only with `--cfg similar_verif`): crate-internal helpers
-/// made reachable so that they can be compared one by one with their models.
-#[cfg(similar_verif)]
+/// made reachable so that they can be compared one by one with their models
+/// (left out with `--cfg similar_verif_no_internals`).
+#[cfg(all(similar_verif, not(similar_verif_no_internals)))]
 #[allow(missing_docs)]
 pub mod verif_internals {
     pub use super::compact::{cleanup_diff_ops, verif_shift_diff_ops};
